@@ -45,6 +45,8 @@ def json_structure(ctx):
 _FUNCS = ["prov.serializers.provjson.encode_json_document/encode_json_container/encode_json_representation/literal_json_representation",
           "prov.constants.PROV_N_MAP/PROV_ATTRIBUTES_ID_MAP (key tables)", "oracles.provjson_reader (independent, from the PROV-JSON specification)"]
 
+PRELOAD = ("prov.model", "prov.serializers.provxml", "prov.serializers.provjson")
+
 OBLIGATIONS = [
     Obligation(name="json_values", fn=json_values, shards=_value_shards,
                desc="the PROV-JSON container emitted for one entity with one attribute (6 name classes x 15 value kinds, 5 namespace modes) is read by an "
